@@ -739,12 +739,17 @@ impl World {
                     cur
                 };
                 let chain = if self.rng.chance(1, 20) { Some(1) } else { Some(self.chain_id) };
-                let (to, data) = if have_tool && self.rng.chance(4, 5) {
+                let (to, mut data) = if have_tool && self.rng.chance(4, 5) {
                     let t = parse_addr(&self.rng.pick(&self.tools.clone()).clone());
                     (Some(t), self.tool_calldata())
                 } else {
                     (None, asm::tool_init())
                 };
+                // signer-specific trailing bytes (ignored by the contracts): where transaction hashes
+                // are signing hashes (mainnet below the RLP-hash height) two signers sending the same
+                // (nonce, to, data) would get the same hash, a legacy collision that is a finding of its
+                // own (C06) and would otherwise end many histories early
+                data.extend_from_slice(&[0xee, si as u8]);
                 let raw = signer.sign(chain, nonce, to, &data);
                 let len = (raw.len() / 2) as u64 + 100_000;
                 let op = Op::Transact { raw: format!("0x{}", raw), enc: self.enc(), ctx, iid: self.iid(), len, txid: self.txid() };
